@@ -6,8 +6,10 @@ CONSTANTS
   PruneBeforeWrite = FALSE
   LooseBeforePacked = FALSE
   StaleSnapshot = FALSE
+  StaleShortcut = FALSE
 INVARIANT VisIsAbs
 INVARIANT CasSound
+INVARIANT ShortcutSound
 INVARIANT AddSound
 INVARIANT DelSound
 INVARIANT ReadSound
